@@ -34,7 +34,7 @@ var extFamilies = []extFamily{
 }
 
 // attribute blocks on headings: token sequences between "# a {" and "}" (ATX) and "a {" … "}\n===" (Setext)
-var attrTokens = []string{".x", "#i", "class=", "Class=", "CLASS=", "id=", "k=", "1", "\"v\"", "[a]", "true", " ", "x", "=", "-1.5", "'w'", "data-a="}
+var attrTokens = []string{".x", "#i", "class=", "Class=", "id=", "k=", "1", "\"v\"", "[a]", "true", " ", "x", "="}
 
 // extFamilyJobs returns the jobs of the extension families. popts/ropts are the parser/renderer option
 // strings of the configurations; light halves the lengths (multi-conversion harnesses).
@@ -42,6 +42,9 @@ var attrTokens = []string{".x", "#i", "class=", "Class=", "CLASS=", "id=", "k=",
 // whose property is about what an extension's own syntax can do (C01 crash, C03 markup, C05 tree); the other
 // Convert-based checks run them one shorter.
 var deepExtFamilies = false
+
+// the families that keep their full quick length where deepExtFamilies is set (the others run one shorter in the quick tier)
+var deepExtNames = map[string]bool{"typographer": true, "typographer-decade": true, "footnote": true, "table": true, "cjk": true, "tasklist": true}
 
 func extFamilyJobs(entry string, thorough, light bool, popts, ropts string, only map[string]bool, extra ...interface{}) ([]interp.Job, string) {
 	var jobs []interp.Job
@@ -54,7 +57,7 @@ func extFamilyJobs(entry string, thorough, light bool, popts, ropts string, only
 		if thorough {
 			n = f.LT
 		}
-		if light || (!thorough && !deepExtFamilies) {
+		if light || (!thorough && (!deepExtFamilies || !deepExtNames[f.Name])) {
 			n = f.LQ - 1
 		}
 		cfgs := []string{cfg(f.Ext, popts, ropts)}
@@ -119,9 +122,12 @@ var longUnits = []longUnit{
 	{"[a]: b\n", "\n[a] [A]\n", -1},
 }
 
+// longDocMaxN: quick-tier bound of the repetition count (C08, whose property the long-document change broke, sets 70)
+var longDocMaxN = 40
+
 func longDocJobs(entry string, thorough, light bool, cfgs []string, extra ...interface{}) ([]interp.Job, string) {
 	var jobs []interp.Job
-	maxN, step := 70, 1
+	maxN, step := longDocMaxN, 1
 	if thorough {
 		maxN = 300
 	}
